@@ -32,6 +32,14 @@ def vecOf {α : Type} [Inhabited α] (l : List α) (n : Nat) : Vec n α :=
   let a := l.toArray
   fun j => a.getD j.val default
 
+/-- evaluate a vector / matrix once into arrays (the driver's memoisation; `tabulate` in a `def`
+returning a lambda would be re-evaluated at every application) -/
+def memoV {α : Type} {n : Nat} (f : Fin n → α) : Array α := Array.ofFn f
+def memoM {α : Type} {m n : Nat} (f : Fin m → Fin n → α) : Array (Array α) := Array.ofFn fun i => Array.ofFn (f i)
+def atV {α : Type} [Inhabited α] {n : Nat} (a : Array α) : Fin n → α := fun i => a.getD i.val default
+def atM {α : Type} [Inhabited α] {m n : Nat} (a : Array (Array α)) : Fin m → Fin n → α :=
+  fun i j => (a.getD i.val #[]).getD j.val default
+
 section generic
 variable {α : Type} [Inhabited α] [Add α] [Sub α] [Mul α] [Div α] [Neg α] [OfNat α 0] [OfNat α 1] [LT α] [LE α]
   [Max α] [Min α] [DecidableRel (α := α) (· < ·)] [DecidableRel (α := α) (· ≤ ·)]
@@ -49,12 +57,17 @@ def aggField (jn : α → Json) (method : String) (metric : String) (rows : List
     match method with
     | "wsm" => pure (obj [("score", jList jn (Vec.toList (wsm A w))), ("refuses", jBool (wsmRefuses A o))])
     | "ratio" => pure (obj [("score", jList jn (Vec.toList (ratio A o w)))])
-    | "refpoint" => pure (obj [("score", jList jn (Vec.toList (tabulate (refpoint (tabulate2 A) o w)))),
-                               ("reference_point", jList jn (Vec.toList (referencePoint A o)))])
+    | "refpoint" =>
+      let refA := memoV (referencePoint A o)
+      let ref : Vec n α := atV refA
+      let sc : Vec m α := fun i => maxFin fun j => absv (w j * (A i j - ref j))
+      pure (obj [("score", jList jn (Vec.toList sc)), ("reference_point", jList jn refA.toList)])
     | "topsis" => do
       let μ ← asMetric metric
-      let idl := tabulate (ideal A o w)
-      let anti := tabulate (antiIdeal A o w)
+      let idlA := memoV (ideal A o w)
+      let antiA := memoV (antiIdeal A o w)
+      let idl : Vec n α := atV idlA
+      let anti : Vec n α := atV antiA
       let sim : Vec m α := fun i =>
         let dB := distQ μ (weighted A w i) idl
         let dW := distQ μ (weighted A w i) anti
@@ -81,8 +94,10 @@ def aggMath [MathFns α] (jn : α → Json) (method : String) (metric : String) 
     | "fmf" => pure (obj [("score", jList jn (Vec.toList (fmfCode A o w))), ("spec", jList jn (Vec.toList (fmfSpec A o w)))])
     | "topsis" => do
       let μ ← asMetric metric
-      let idl := tabulate (ideal A o w)
-      let anti := tabulate (antiIdeal A o w)
+      let idlA := memoV (ideal A o w)
+      let antiA := memoV (antiIdeal A o w)
+      let idl : Vec n α := atV idlA
+      let anti : Vec n α := atV antiA
       let sim : Vec m α := fun i =>
         let dB := dist μ (weighted A w i) idl
         let dW := dist μ (weighted A w i) anti
